@@ -22,6 +22,9 @@ arm behind subject_to_rrl), and is preceded by clear_rrs; the TCP Truncation arm
 (c') the Writer invariant 12 <= rr_start <= cursor <= available <= limit <= len(octets) is established by Writer::new and
 re-established by every single store to those fields (E5 at each store; finish_with_mac under the reservation-accounting
 lemma), so the finished length (cursor) never exceeds the limit in force.
+(t) Error::Truncation is produced only by tests of the space actually about to be consumed (the amount compared with
+available - cursor is the amount the success path then consumes); no operation gives up on an estimate, so whatever
+fits is written.
 Not decided: identity of the UDP and TCP responses when the answer fits (needs two executions).
 """
 ASSUMPTIONS = ['every CFG path is assumed feasible']
@@ -53,6 +56,7 @@ def check(R, F):
     writer_inv.check(R, F, _S)
     e5.check_pres(R, F, _S, 'writer-invariant.pre', only=("message::writer::Writer::<'a>::write", "message::writer::Writer::<'a>::write_u16"))
     R.floor('writer-invariant.pre', 5)
+    wc.check_truncation_exact(R, F)
 
     hm = F.fn(HANDLE_MESSAGE)
     # ---- (a)
